@@ -30,7 +30,7 @@ ASSUMPTIONS = [
     'files <= 64 kB',
 ]
 PROBES = ['two_readers_interleaved', 'span_ge3_vr', 'seg16', 'pad_ge4', 'zero_payload', 'chk_and_trail', 'vr20', 'vr16384', 'seq_with_zero',
-          'maxlen_with_zero', 'encrypted', 'pad_ge100', 'second_pass', 'history_before_scan', 'iterator_created_before_history']
+          'maxlen_with_zero', 'encrypted', 'pad_ge100', 'second_pass', 'history_before_scan', 'iterator_created_before_history', 'reader_reentered']
 
 File = None
 
@@ -54,6 +54,10 @@ def generate(seed, tier):
             kind = rng.pick(['positions', 'visible', 'lrsh', 'fetch', 'abandoned_scan', 'validate'])
             ops.append([kind, rng.randrange(max(1, nrec)), rng.randrange(1, 5)])
         sc['history'] = {'lazy': rng.chance(0.6), 'ops': ops}
+    if rng.chance(0.15):
+        # the reader is left and entered again on the same file object, whose content has meanwhile been replaced by another
+        # conformant file (or is unchanged): everything reported afterwards is about the bytes that are there now
+        sc['reenter'] = D.gen_model(seeds.Rng(rng.getrandbits(32)), max_records=8) if rng.chance(0.7) else 'same'
     if rng.chance(0.2):
         # a second reader on another file, alive at the same time; the two sequential reads are interleaved record by record
         # by an explicit schedule (0 = step this reader, 1 = step the other one)
@@ -235,6 +239,26 @@ def execute(scenario):
         if p:
             res.probe('second_pass')
         sequential_read(res, reader, layout, f'scan{p}', scenario.get('history') if p == scenario.get('passes', 1) - 1 else None)
+    if scenario.get('reenter') is not None:
+        res.probe('reader_reentered')
+        res.op('reenter')
+        m2 = model if scenario['reenter'] == 'same' else scenario['reenter']
+        by2, layout2 = D.build(m2)
+        try:
+            reader._exit()
+            f.set_content(by2)
+            reader._enter()
+        except Exception as err:
+            res.violation('open-exception', f're-entering the reader: {type(err).__name__}: {err}', exc=type(err).__name__, reentered=True, **sul_facts(m2['sul']))
+            res.events.extend(f.log)
+            return res
+        n0 = len(res.violations)
+        check_sul(res, reader.sul, m2['sul'])
+        sequential_read(res, reader, layout2, 'rescan')
+        for v in res.violations[n0:]:
+            v['facts']['reentered'] = True
+            v['detail'] = 'after leaving and re-entering the reader on replaced content: ' + v['detail']
+        model, layout = m2, layout2
     if scenario.get('other') is not None:
         interleaved(res, scenario, reader, layout, clock)
     try:
@@ -310,6 +334,11 @@ def candidates(scenario):
             yield dict(scenario, schedule=[0, 1])
     if scenario.get('passes', 1) > 1:
         yield dict(scenario, passes=1)
+    if scenario.get('reenter') is not None:
+        yield {k: v for k, v in scenario.items() if k != 'reenter'}
+        if scenario['reenter'] != 'same':
+            for tag, m, _ in D.phys_candidates(scenario['reenter']):
+                yield dict(scenario, reenter=m)
     h = scenario.get('history')
     if h:
         yield {k: v for k, v in scenario.items() if k != 'history'}
